@@ -29,18 +29,19 @@ CODE = 0x70000000
 
 
 def plan(tier, seed):
-    return [{'k': 'hub'}] * (30000 if tier == 'quick' else 600000)
+    # 'hub-long': the same kind of history with one burst of several million identical accesses in it (history LENGTH is part of "every sequence")
+    return [{'k': 'hub'}] * (30000 if tier == 'quick' else 600000) + [{'k': 'hub-long'}] * (4 if tier == 'quick' else 64)
 
 
 def gen(item, rng, tier):
     base = rng.choice([0, 0x1000, 0x7FFF0000, None, 0x100000000, 0xFFFFF000])
-    n = rng.randrange(1, 7)
+    n = rng.randrange(1, 7) if item['k'] != 'hub-long' else rng.randrange(2, 5)
     sizes = [rng.choice(SIZES) for _ in range(n)]
     if base is None:
         base = 0x100000000 - sum(sizes)          # the last device ends exactly at 2^32
         style = 'adjacent'
     else:
-        style = rng.choice(['adjacent', 'gapped', 'overlap', 'mixed'])
+        style = rng.choice(['adjacent', 'gapped', 'overlap', 'mixed']) if item['k'] != 'hub-long' else 'overlap'
     devs = []
     cur = base
     for s in sizes:
@@ -114,6 +115,13 @@ def gen(item, rng, tier):
                 rc = {'op': 'add', 'begin': cur + rng.choice([0, 0, 3, -2]), 'size': s2, 'fill': bytes(rng.getrandbits(8) for _ in range(16)).hex()}
                 cur += s2 + 3
             ops.insert(at, rc)
+    if item['k'] == 'hub-long':
+        ops = [o for o in ops if 'addr' in o][:60]
+        hot = [o for o in ops if o['path'] == 'hub'] or ops
+        for at in sorted(rng.sample(range(1, len(ops)), 2), reverse=True):
+            h = rng.choice(hot)
+            ops.insert(at, {'op': 'burst', 'path': 'hub', 'addr': h['addr'], 'size': h['size'], 'value': 0,
+                            'n': (1 << 22) + rng.randrange(1, 1 << 18) if tier == 'quick' else rng.choice([1 << 22, 1 << 23, 1 << 24]) + rng.randrange(1, 1 << 18)})
     return {'scenario': 'hub', 'style': style, 'devices': devs, 'ops': ops, 'via_add_memory': bool(rng.getrandbits(1))}
 
 
@@ -252,6 +260,21 @@ def run(case):
                 ctrls.append(arm.mem.memories[-1])
             continue
         addr, size, path = op['addr'], op['size'], op['path']
+        if op['op'] == 'burst':
+            # millions of identical reads through the hub API: nothing may change, neither the bytes nor which device answers later accesses
+            desc = AddressDescriptor()
+            desc.paddress.physicaladdress = addr
+            mem = arm.mem
+            count('fault.burst')
+            try:
+                for _ in range(op['n']):
+                    mem[desc, size]
+            except Exception as e:
+                name, site = M.exc_site(e)
+                viol.append({'oracle': 'hub.model', 'site': site, 'cls': 'host_error:' + name, 'tick': idx, 'detail': '%r in a burst of %d reads at %#x' % (e, op['n'], addr)})
+                break
+            ticks += op['n']
+            op = dict(op, op='r')
         pc = position_class(model, addr, size)
         cover.add('%s|%d|%s|%s|%s' % (case['style'], size, pc, op['op'], path))
         count('probe.pos-' + pc)
